@@ -106,12 +106,12 @@ Outcomes(st, o) ==
             ELSE {Out(St(Front(ps)), Ok(<<Last(ps).v>>))}
          ELSE IF HasK(ps, k) THEN {Out(St(RemoveAt(ps, LastIdx(ps, k))), Ok(<<LastV(ps, k)>>))}
          ELSE IF o.d = -1 THEN {Out(St(ps), Err("KeyError"))} ELSE {Out(St(ps), Ok(<<o.d>>))}
-    (* popitem: the property fixes no victim. Admitted: all pairs of one present key, returning *)
-    (* (key, its visible value); or the most recent pair alone, returning it.                  *)
+    (* popitem: on the pair list the victim is the most recent pair - its key and value are returned; whether the key's *)
+    (* older pairs go with it (as pop does) or stay is left open                                                        *)
     [] o.op = "popitem" ->
          IF ps = <<>> THEN {Out(St(ps), Err("KeyError"))}
-         ELSE {Out(St(DropKey(ps, kk)), Ok(<<kk, LastV(ps, kk)>>)) : kk \in KeySet(ps)}
-              \cup {Out(St(Front(ps)), Ok(<<Last(ps).k, Last(ps).v>>))}
+         ELSE {Out(St(DropKey(ps, Last(ps).k)), Ok(<<Last(ps).k, Last(ps).v>>)),
+               Out(St(Front(ps)), Ok(<<Last(ps).k, Last(ps).v>>))}
     [] o.op = "clear"    -> {Out(St(<<>>), Ok(<<>>))}
     (* copies (copy(), copy.copy, copy.deepcopy, pickle round trip): equal to the source; *)
     (* the harness continues on the copy and re-observes the source afterwards            *)
